@@ -8,4 +8,6 @@ mkdir -p bin evidence replays .work
 (cd engine && go build -o ../bin/govc .)
 # warm export data used by go/packages (first load is slow on a cold cache)
 (cd /repo && go build -tags slicelabels,verif ./pkg/... ./internal/cortex/... >/dev/null 2>&1 || true)
+# the arithmetic lemmas given to the SMT solvers as axioms are checked by Lean's kernel
+(cd lean && lean Aligned.lean) || { echo "lean lemma check failed"; exit 1; }
 echo setup ok
